@@ -1,4 +1,5 @@
 import TruthModel.Props.C18Msg
+import TruthModel.Props.C18MsgFile
 import TruthModel.Model.Offsets
 import TruthModel.Lemmas.Abi
 import TruthModel.Props.C03
